@@ -4,7 +4,7 @@
   tools/seed_eval.py <name> <worktree> <property> [checks to run ...]
 
 1. in the scratch worktree: demo passes on the clean tree, fails with the patch, the stable baseline tests still pass
-   with the patch;   2. applies the patch to /repo, runs the quick checks, restores /repo;   3. writes patch.diff, the
+   with the patch;   2. applies the patch in the worktree, runs the quick checks against it (CHI_SRC), restores it;   3. writes patch.diff, the
    demonstration and meta.json."""
 import json, os, shutil, subprocess, sys, tempfile
 import xml.etree.ElementTree as ET
@@ -46,7 +46,9 @@ finally:
     sh(['git', 'checkout', '--', 'chi'])
 print('demo clean exit=%d, mutated exit=%d, stable tests lost with the patch: %d' % (clean.returncode, mut.returncode, len(missing)))
 confirmed = clean.returncode == 0 and mut.returncode != 0 and not missing
-r = subprocess.run([os.path.join(HERE, 'tools', 'try_patch.py'), patch] + checks, capture_output=True, text=True)
+# the checks read chi from the scratch worktree with the change applied (/repo is never touched)
+r = subprocess.run([os.path.join(HERE, 'tools', 'try_patch.py'), patch] + checks, capture_output=True, text=True,
+                   env=dict(os.environ, TRY_SRC=wt))
 print(r.stdout, r.stderr[-500:])
 caught = {}
 for l in r.stdout.splitlines():
